@@ -723,7 +723,9 @@ def dom_corpus(tier: str, seed: int):
         # 4c. enums named like prelude / core items, repr given through cfg_attr and before the derive
         # (single letters: the names generic parameters of generated methods would have)
         for ename in (["Option", "Copy", "B", "F"] if tier == "quick" else
-                      ["Option", "Result", "Iterator", "Copy", "Some", "e", "Ordering", "String", "B", "F", "T", "I", "R", "S", "Item"]):
+                      # (not Some / None / Ok / Err / Iterator / IntoIterator / DoubleEndedIterator: the generated
+                      # functions import those names locally; an enum of that name is deliberately outside the workload)
+                      ["Option", "Result", "Copy", "e", "Ordering", "String", "B", "F", "T", "I", "R", "S", "Item", "Self_"]):
             dd = make_decl(r, [("A", None, None), ("B", "5", "b"), ("C", None, None), ("D", "2", None)], shape="dom_enum_named_" + ename)
             dd.name = ename
             add(dd, {"feat": ["enum_name", "implicit_after_explicit"]}, modes_i=ri)
